@@ -449,13 +449,70 @@ theorem alookup_append {κ α} [BEq κ] [LawfulBEq κ] (k : κ) (m m' : List (κ
     · simp
     · exact ih
 
+theorem addInformedStop_cause (a : AlertMsg) (x : Str) : (addInformedStop a x).cause = a.cause := by
+  unfold addInformedStop; split <;> rfl
+
+theorem addInformedStop_effect (a : AlertMsg) (x : Str) : (addInformedStop a x).effect = a.effect := by
+  unfold addInformedStop; split <;> rfl
+
+/-- the shape of a match of the elevator id pattern: a three-byte station and an optional N/S suffix -/
+theorem matchElevatorAt_shape (s : Str) (st suf el : Str) (h : matchElevatorAt s = some (st, suf, el)) :
+    st.length = 3 ∧ (suf = [] ∨ suf = [83] ∨ suf = [78]) := by
+  unfold matchElevatorAt at h
+  split at h
+  · next a b c r =>
+    split at h
+    · split at h
+      · next d r' =>
+        split at h
+        · next hd =>
+          simp only [Option.some.injEq, Prod.mk.injEq] at h
+          obtain ⟨rfl, rfl, _⟩ := h
+          refine ⟨rfl, ?_⟩
+          have : d = 83 ∨ d = 78 := by simpa using hd
+          rcases this with rfl | rfl
+          · exact Or.inr (Or.inl rfl)
+          · exact Or.inr (Or.inr rfl)
+        · cases h
+      · simp only [Option.some.injEq, Prod.mk.injEq] at h
+        obtain ⟨rfl, rfl, _⟩ := h
+        exact ⟨rfl, Or.inl rfl⟩
+      · cases h
+    · cases h
+  · cases h
+
+theorem matchElevator_shape (s : Str) (st suf el : Str) (h : matchElevator s = some (st, suf, el)) :
+    st.length = 3 ∧ (suf = [] ∨ suf = [83] ∨ suf = [78]) := by
+  induction s with
+  | nil => simp [matchElevator] at h
+  | cons c r ih =>
+    unfold matchElevator at h
+    split at h
+    · next m hm =>
+      cases h
+      exact matchElevatorAt_shape _ _ _ _ hm
+    · exact ih h
+
+/-- the documented id of a group never starts with one of the cause prefixes (`lmm:…`): its fourth
+    byte is `#`, `N` or `S`, or it starts with `elevator:` – so the group's alert keeps the elevator cause -/
+theorem causeFor_newId (o : NyctAlertsOpts) (id station suffix elevator : Str)
+    (hm : matchElevator id = some (station, suffix, elevator)) :
+    causeFor (elevatorNewId o station suffix elevator) Gen.NyctTables.elevatorCause = Gen.NyctTables.elevatorCause := by
+  obtain ⟨hlen, hsuf⟩ := matchElevator_shape id station suffix elevator hm
+  match station, hlen with
+  | [a, b, c], _ =>
+    unfold causeFor elevatorNewId
+    cases o.policy <;> rcases hsuf with rfl | rfl | rfl <;>
+      simp [Gen.NyctTables.causeByPrefix, hasPrefix, List.find?_cons, Gen.NyctTables.elevatorCause]
+
 /-- invariant of the pre-pass after the entities `pre`: every group's recorded position holds the
     group's first member, not skipped, under the group's id, informing exactly the distinct stops of
     the members seen so far (in order of first appearance); a key without a group has no member yet -/
 def GInv (o : NyctAlertsOpts) (pre : List Entity) (st : AlertPass) : Prop :=
   (∀ k i, alookup k st.groups = some i →
     ∃ ent fa, st.done[i]? = some (ent, false) ∧ ent.id = k ∧ ent.alert = some fa ∧
-      fa.informed = (firstOccurrences (memberStops o k pre)).map stopSel) ∧
+      (fa.informed = (firstOccurrences (memberStops o k pre)).map stopSel ∧
+       fa.cause = some Gen.NyctTables.elevatorCause ∧ fa.effect = some Gen.NyctTables.elevatorEffect)) ∧
   (∀ k, alookup k st.groups = none → memberStops o k pre = [])
 
 theorem memberStops_snoc (o : NyctAlertsOpts) (k : Str) (pre : List Entity) (e : Entity) :
@@ -544,7 +601,9 @@ theorem passStep_GInv (o : NyctAlertsOpts) (pre : List Entity) (st : AlertPass) 
               addInformedStop fa (if o.useStationIds then station else station ++ suffix), ?_, hid, rfl, ?_⟩
             · rw [List.getElem?_append_left (by rw [modifyAt_length]; exact hi), modifyAt_getElem?, hd']
               simp [hal]
-            · rw [hms_key]; exact addInformedStop_stops fa _ _ hinf
+            · rw [hms_key]
+              exact ⟨addInformedStop_stops fa _ _ hinf.1, by rw [addInformedStop_cause]; exact hinf.2.1,
+                by rw [addInformedStop_effect]; exact hinf.2.2⟩
           · obtain ⟨ent', fa', hd'', hid', hal', hinf'⟩ := h1 k j hlj
             have hj := getElem?_lt_of_some _ _ _ hd''
             have hji : j ≠ i := by
@@ -586,8 +645,10 @@ theorem passStep_GInv (o : NyctAlertsOpts) (pre : List Entity) (st : AlertPass) 
               simp only [stopSel] at hel
               simp only [hel, Bool.false_eq_true, if_false]
               rw [hms_key, hempty]
+              have hcause : causeFor key Gen.NyctTables.elevatorCause = Gen.NyctTables.elevatorCause := by
+                rw [← hk]; exact causeFor_newId o e.id station suffix elevator hm
               split <;>
-                exact ⟨_, _, List.getElem?_concat_length, rfl, rfl, by simp [firstOccurrences, stopSel]⟩
+                exact ⟨_, _, List.getElem?_concat_length, rfl, rfl, by simp [firstOccurrences, stopSel], by simp [hcause], rfl⟩
             · have : (key == k) = false := by simpa using hkk
               rw [this] at hlj; simp at hlj
         · intro k hlk
@@ -608,7 +669,8 @@ theorem passStep_GInv (o : NyctAlertsOpts) (pre : List Entity) (st : AlertPass) 
 theorem C17_group_stops (o : NyctAlertsOpts) (es : List Entity) (k : Str) (i : Nat)
     (h : alookup k (es.foldl (passStep o) {}).groups = some i) :
     ∃ ent fa, (es.foldl (passStep o) {}).done[i]? = some (ent, false) ∧ ent.id = k ∧ ent.alert = some fa ∧
-      fa.informed = (firstOccurrences (memberStops o k es)).map stopSel := by
+      (fa.informed = (firstOccurrences (memberStops o k es)).map stopSel ∧
+       fa.cause = some Gen.NyctTables.elevatorCause ∧ fa.effect = some Gen.NyctTables.elevatorEffect) := by
   suffices H : ∀ (es pre : List Entity) (st : AlertPass), GInv o pre st → GInv o (pre ++ es) (es.foldl (passStep o) st) by
     have := H es [] {} ⟨by intro k i h; simp [alookup] at h, by intro k _; rfl⟩
     simp only [List.nil_append] at this
